@@ -244,6 +244,15 @@ def set_case(case):
         C.save_circuitset(cs, buf)
         buf.seek(0)
         ds = C.load_circuitset(buf)
+        wd = tempfile.mkdtemp(prefix="c05s.", dir="/dev/shm" if os.path.isdir("/dev/shm") else "/var/tmp")
+        try:
+            p = os.path.join(wd, "cs.json")
+            C.save_circuitset(cs, p)
+            ds_path = C.load_circuitset(p)
+        finally:
+            shutil.rmtree(wd, ignore_errors=True)
+        if len(ds_path) != len(cs) or any(circuits_equal(c, d, False) for c, d in zip(cs, ds_path)):
+            return {"ok": False, "msg": "circuit set saved to / loaded from a path differs", "sig": "set:path"}
     else:
         ds = C.circuitset_from_dict(json.loads(json.dumps(C.to_dict(cs))))
     if len(ds) != len(cs):
